@@ -205,6 +205,9 @@ func main() {
 	case "rules":
 		for _, r := range rules {
 			fmt.Printf("%-18s %-9s %v floor=%d\n", r.Name, r.IR, r.Props, r.Floor)
+			if len(os.Args) > 2 && os.Args[2] == "-doc" {
+				fmt.Printf("    %s\n", r.Doc)
+			}
 		}
 	default:
 		fmt.Fprintln(os.Stderr, "unknown command", os.Args[1])
